@@ -9,6 +9,7 @@ import (
 
 	"verif/mc/clustermc"
 	"verif/mc/engine"
+	"verif/mc/oracle"
 	"verif/mc/schedrun"
 	"verif/mc/world"
 )
@@ -188,11 +189,77 @@ func gangVsElasticScenarios(tier string) []clustermc.Scenario {
 	return out
 }
 
+// siblingRepresentativeScenarios: two departments; the reclaimer's department has a SECOND leaf queue
+// (no quota, optionally a higher queue priority) whose pending jobs may be unschedulable (3 GPUs on a
+// full node) and so keep representing their department in every ordering of departments. Whether a
+// reclaim across the departments helps the reclaimer then depends on jobs of a queue that is neither
+// the reclaimer's nor a victim's.
+func siblingRepresentativeScenarios(tier string) []clustermc.Scenario {
+	shG3 := world.Shape{CPUm: 500, GPUs: 3}
+	menu := []wlItem{
+		{"run-g1-qa", world.WL{Queue: "qa", Pods: pods(1, shG1, world.StRunning, "n1")}},
+		{"run-g1-qb", world.WL{Queue: "qb", Pods: pods(1, shG1, world.StRunning, "n1")}},
+		{"run-g2-qb", world.WL{Queue: "qb", Pods: pods(1, shG2, world.StRunning, "n1")}},
+		{"run-g1-qa2", world.WL{Queue: "qa2", Pods: pods(1, shG1, world.StRunning, "n1")}},
+		{"pend-g1-qa", world.WL{Queue: "qa", Pods: pods(1, shG1, "", "")}},
+		{"pend-g3-qa2", world.WL{Queue: "qa2", Pods: pods(1, shG3, "", "")}},
+		{"pend-g1-qa2", world.WL{Queue: "qa2", Pods: pods(1, shG1, "", "")}},
+		{"pend-g1-qb", world.WL{Queue: "qb", Pods: pods(1, shG1, "", "")}},
+	}
+	lay := nodeLayout{"1n-4gpu", []world.NodeOpt{{Name: "n1", CPU: "16", Mem: "32Gi", GPUs: 4, GPUMemMiB: 40000}}}
+	var qsets []queueSetup
+	for _, prio := range []int{0, 200} {
+		prio := prio
+		qsets = append(qsets, queueSetup{fmt.Sprintf("2dept-qa+qa2(prio%d)|qb", prio), func(b *world.Builder) {
+			u := world.QUnlimited()
+			g := func(q, w float64) world.QRes { return world.QRes{Quota: q, Limit: -1, Weight: w} }
+			b.Queue(world.QueueOpt{Name: "d1", GPU: g(2, 1), CPU: u, Mem: u})
+			b.Queue(world.QueueOpt{Name: "d2", GPU: g(2, 1), CPU: u, Mem: u})
+			b.Queue(world.QueueOpt{Name: "qa", Parent: "d1", GPU: g(1, 1), CPU: u, Mem: u})
+			qa2 := world.QueueOpt{Name: "qa2", Parent: "d1", GPU: g(0, 0), CPU: u, Mem: u}
+			if prio != 0 {
+				qa2.Priority = &prio
+			}
+			b.Queue(qa2)
+			b.Queue(world.QueueOpt{Name: "qb", Parent: "d2", GPU: g(2, 2), CPU: u, Mem: u})
+		}})
+	}
+	cfgs := []schedrun.Config{{}, {ConsolidatingReclaim: true}}
+	var out []clustermc.Scenario
+	for _, qs := range qsets {
+		for _, pick := range multisetsUpTo(len(menu), 5) {
+			if !hasPending(menu, pick) || len(pick) < 3 {
+				continue
+			}
+			sib := false
+			for _, i := range pick {
+				sib = sib || strings.HasSuffix(menu[i].tag, "-qa2")
+			}
+			if !sib {
+				continue
+			}
+			w, ok := buildWLWorld(lay, qs, menu, pick)
+			if !ok || oracle.Oversubscribed(w) {
+				continue
+			}
+			tags := ""
+			for _, i := range pick {
+				tags += menu[i].tag + ","
+			}
+			for ci, cfg := range cfgs {
+				out = append(out, clustermc.Scenario{Name: fmt.Sprintf("sibling-rep/%s/%s/cfg%d[%s]:%s", lay.tag, qs.tag, ci, cfg.Label(), tags), World: w, Configs: []schedrun.Config{cfg}})
+			}
+		}
+	}
+	return out
+}
+
 func C15() *clustermc.Family {
 	return &clustermc.Family{
 		Property:  "C15",
 		Scenarios: func(tier string) []clustermc.Scenario {
-			return append(append(closedScenarios(tier), pinnedScenarios(tier)...), gangVsElasticScenarios(tier)...)
+			out := append(append(closedScenarios(tier), pinnedScenarios(tier)...), gangVsElasticScenarios(tier)...)
+			return append(out, siblingRepresentativeScenarios(tier)...)
 		},
 		Depth: func(tier string) int {
 			if tier == "thorough" {
